@@ -1086,7 +1086,7 @@ func (p *Parser[V]) parseUnary(tokenizer *Tokenizer, constants Identifiers[V]) (
 			var err error
 			if un.opPos >= 0 {
 				// the unary is also an operator ("-")
-				inner, err = p.parseOp(tokenizer, un.opPos+1, constants)
+				inner, err = p.nextParserCall(un.opPos)(tokenizer, constants)
 			} else {
 				inner, err = p.parseNonOperator(tokenizer, constants)
 			}
